@@ -111,6 +111,9 @@ def plan_style(rng, spec, force=None):
         mixed = any(any(e in base_events for e in t["events"]) and not all(e in base_events for e in t["events"]) for t in explicit)
         if order_ok and not deco_on_base and not any_on_base and not mixed and base_valid(spec, base_events):
             st["base_events"] = base_events
+            for e in spec["events"]:
+                if st["events"][e] == "kw_obj":
+                    st["events"][e] = "kw_str"
             for e in base_events:
                 if st["events"][e].startswith("kw_"):
                     st["events"][e] = "attr"
